@@ -51,7 +51,7 @@ func c18Groups(tier string) []core.Group {
 	if tier == "thorough" {
 		for _, g := range []int{2, 4, 8, 16} {
 			for _, p := range []int{1, 2, 4, 16} {
-				cfgs = append(cfgs, cfg{g, p, 6})
+				cfgs = append(cfgs, cfg{g, p, 20})
 			}
 		}
 	} else {
